@@ -21,6 +21,13 @@ func ShapeCMPM()
 func ShapeMOVI()
 func ShapeCALL()
 func ShapeSkip()
+func ShapeJPL()
+func ShapeJMI()
+func ShapeJCS()
+func ShapeJCC()
+func ShapeJHI()
+func ShapeJGE()
+func ShapeJLE()
 func shapeHelper()
 
 // Placeholders linked before (A) and after (Z) the shapes.
@@ -36,6 +43,13 @@ func PhA8()
 func PhA9()
 func PhA10()
 func PhA11()
+func PhA18()
+func PhA17()
+func PhA16()
+func PhA15()
+func PhA14()
+func PhA13()
+func PhA12()
 func PhZ0()
 func PhZ1()
 func PhZ2()
@@ -48,6 +62,13 @@ func PhZ8()
 func PhZ9()
 func PhZ10()
 func PhZ11()
+func PhZ18()
+func PhZ17()
+func PhZ16()
+func PhZ15()
+func PhZ14()
+func PhZ13()
+func PhZ12()
 
 // Tight placeholders (t_tight_amd64.s): K bytes of placeholder, an INT3, then a neighbour routine.
 func PhTight14()
@@ -93,10 +114,17 @@ var Shapes = []*Shape{
 	{Name: "ShapeMOVI", Run: ShapeMOVI, PhA: "PhA9", PhZ: "PhZ9", Note: "store-immediate to RIP-relative memory in the prefix"},
 	{Name: "ShapeCALL", Run: ShapeCALL, PhA: "PhA10", PhZ: "PhZ10", Note: "CALL rel32 in the prefix"},
 	{Name: "ShapeSkip", Run: ShapeSkip, PhA: "PhA11", PhZ: "PhZ11", Note: "short forward branch inside the copied prefix that jumps over a rel8 branch leaving it (refusal expected: widening the second would break the first)"},
+	{Name: "ShapeJLE", Run: ShapeJLE, PhA: "PhA12", PhZ: "PhZ12", Note: "JLE rel8 beyond the copied prefix (not in goom's widening table: refusal expected, never another condition)"},
+	{Name: "ShapeJGE", Run: ShapeJGE, PhA: "PhA13", PhZ: "PhZ13", Note: "JGE rel8 beyond the copied prefix (not in goom's widening table: refusal expected, never another condition)"},
+	{Name: "ShapeJHI", Run: ShapeJHI, PhA: "PhA14", PhZ: "PhZ14", Note: "JHI rel8 beyond the copied prefix (not in goom's widening table: refusal expected, never another condition)"},
+	{Name: "ShapeJCC", Run: ShapeJCC, PhA: "PhA15", PhZ: "PhZ15", Note: "JCC rel8 beyond the copied prefix (not in goom's widening table: refusal expected, never another condition)"},
+	{Name: "ShapeJCS", Run: ShapeJCS, PhA: "PhA16", PhZ: "PhZ16", Note: "JCS rel8 beyond the copied prefix (not in goom's widening table: refusal expected, never another condition)"},
+	{Name: "ShapeJMI", Run: ShapeJMI, PhA: "PhA17", PhZ: "PhZ17", Note: "JMI rel8 beyond the copied prefix (not in goom's widening table: refusal expected, never another condition)"},
+	{Name: "ShapeJPL", Run: ShapeJPL, PhA: "PhA18", PhZ: "PhZ18", Note: "JPL rel8 beyond the copied prefix (not in goom's widening table: refusal expected, never another condition)"},
 }
 
 // keep every placeholder linked
-var phRefs = []func(){PhA0, PhA1, PhA2, PhA3, PhA4, PhA5, PhA6, PhA7, PhA8, PhA9, PhA10, PhA11, PhZ0, PhZ1, PhZ2, PhZ3, PhZ4, PhZ5, PhZ6, PhZ7, PhZ8, PhZ9, PhZ10, PhZ11}
+var phRefs = []func(){PhA0, PhA1, PhA2, PhA3, PhA4, PhA5, PhA6, PhA7, PhA8, PhA9, PhA10, PhA11, PhA12, PhA13, PhA14, PhA15, PhA16, PhA17, PhA18, PhZ0, PhZ1, PhZ2, PhZ3, PhZ4, PhZ5, PhZ6, PhZ7, PhZ8, PhZ9, PhZ10, PhZ11, PhZ12, PhZ13, PhZ14, PhZ15, PhZ16, PhZ17, PhZ18}
 
 // NumPh reports how many placeholders are linked.
 func NumPh() int { return len(phRefs) + len(tightRefs) }
